@@ -268,7 +268,7 @@ func c19Apply(root string, t c19Tree, e c19Edit) {
 // ---------- the check ----------
 
 func C19(r *core.Run) map[string]interface{} {
-	r.Rule = "InMemLoader: breadth-first search over reference states (3 canonical paths x {absent,c1,c2}) with Set/Delete in 8 spellings each, plus every history of <=2 (thorough 3) operations, every spelling of every path queried after every operation; OS and http loaders: all 121 trees over {a,b} to depth 2 (absent/file/dir at every node) x every clean absolute path of <=3 segments, 44 trees with a symbolic link (to a file, a directory, a nested entry, nothing; consistency only: Exists => Open yields the bytes of the file the path leads to), plus every edit history of <=3 (thorough 4) operations (create, replace file by directory and back, remove); embed loader: one embedded tree, every clean path; multi loader: all 729 stacks of 3 members (each of 2 paths absent/file/directory per member) x 2 member kinds x 4 ways of assembling the stack, plus every history of <=5 (thorough 6) operations over {member Set/Delete, AddLoaders, ClearLoaders, Exists, Open}; oracle: Exists iff regular file, Exists => Open yields exactly the stored bytes, first member that has the path answers"
+	r.Rule = "InMemLoader: breadth-first search over reference states (3 canonical paths x {absent,c1,c2}) with Set/Delete in 8 spellings each, plus every history of <=2 (thorough 3) operations, every spelling of every path queried after every operation; OS and http loaders: all 121 trees over {a,b} to depth 2 (absent/file/dir at every node) x every clean absolute path of <=3 segments, 44 trees with a symbolic link (to a file, a directory, a nested entry, nothing; consistency only: Exists => Open yields the bytes of the file the path leads to), plus every edit history of <=3 (thorough 4) operations (create, replace file by directory and back, remove); embed loader: one embedded tree, every clean path; multi loader: all 729 stacks of 3 members (each of 2 paths absent/file/directory per member) x 2 member kinds x 5 ways of assembling the stack (incl. a caller that re-adds the slice it constructed the loader from), plus every history of <=5 (thorough 6) operations over {member Set/Delete, AddLoaders, ClearLoaders, Exists, Open}; oracle: Exists iff regular file, Exists => Open yields exactly the stored bytes, first member that has the path answers"
 	var states, transitions int64
 	tmp, err := os.MkdirTemp("", "c19-")
 	if err != nil {
@@ -499,8 +499,8 @@ func C19(r *core.Run) map[string]interface{} {
 			c19Materialise(memberRoot(m, combo), t)
 		}
 	}
-	r.ParallelFor(729*2*4, func(i int64) {
-		ix := core.Radix(i, 9, 9, 9, 2, 4)
+	r.ParallelFor(729*2*5, func(i int64) {
+		ix := core.Radix(i, 9, 9, 9, 2, 5)
 		var members []jet.Loader
 		for m := 0; m < 3; m++ {
 			root := memberRoot(m, ix[m])
@@ -523,10 +523,17 @@ func C19(r *core.Run) map[string]interface{} {
 			ml, how = multi.NewLoader(members[0]), "NewLoader(m0);AddLoaders(m1);AddLoaders(m2)"
 			ml.AddLoaders(members[1])
 			ml.AddLoaders(members[2])
-		default:
+		case 3:
 			ml, how = multi.NewLoader(members[2], members[1]), "NewLoader(m2,m1);ClearLoaders();AddLoaders(m0,m1,m2)"
 			ml.ClearLoaders()
 			ml.AddLoaders(members...)
+		default: // the caller re-adds the slice it constructed the loader from: the loader must not have written into it
+			stack := make([]jet.Loader, 2, 4)
+			stack[0], stack[1] = members[1], members[2]
+			ml, how = multi.NewLoader(stack...), "s:=[m1,m2](cap 4);NewLoader(s...);ClearLoaders();AddLoaders(m0);AddLoaders(s...)"
+			ml.ClearLoaders()
+			ml.AddLoaders(members[0])
+			ml.AddLoaders(stack...)
 		}
 		for pi, p := range mpaths {
 			want := "absent"
